@@ -33,7 +33,10 @@ from harness.props import c05
 from harness.props.c05 import (Scratch, forked_map, exc_name, kas_parse, canon_dict, canon_diff, build_tc,
                                gen_desc, valid_ts_desc, KAS_SIZE)
 
-MODES = ["path", "file", "stream2"]
+MODES = ["path", "file", "stream2", "stream1"]
+# stream2: the (possibly corrupted) object is the 2nd of two on an open file, positioned by an eager load of the
+# intact 1st; stream1: it is the 1st, followed by the intact object (a corrupted length must not swallow bytes of
+# the next object: after an eager load the next object must still load, equal to the original).
 
 
 def loader(api, skip_tables, skip_ref):
@@ -62,10 +65,13 @@ class Env:
 
     def present(self, data):
         """Load `data` (bytes of the possibly corrupted object) -> (object | None, exc name | None)."""
+        self.next = None
         with open(self.p, "wb") as f:
             if self.mode == "stream2":
                 f.write(self.base)
             f.write(data)
+            if self.mode == "stream1":
+                f.write(self.base)
         try:
             if self.mode == "path":
                 return self.load(self.p), None
@@ -74,7 +80,15 @@ class Env:
                     # position the stream at the 2nd object with an eager load: the skip_* paths
                     # do not leave the stream at the end of the object (finding C05 stream-consumed:skip)
                     loader(self.api, False, False)(f)
-                return self.load(f), None
+                obj = self.load(f)
+                if self.mode == "stream1" and not (self.skip_tables or self.skip_ref) and self.orig is not None:
+                    try:
+                        nxt = self.canon(loader(self.api, False, False)(f))
+                        d = canon_diff(self.orig, nxt, limit=2)
+                        self.next = "same" if not d else "differs: %s" % d
+                    except Exception as e:
+                        self.next = "raised " + exc_name(e)
+                return obj, None
         except Exception as e:
             return None, exc_name(e)
 
@@ -98,6 +112,7 @@ class Env:
     def outcome(self, data):
         """'<ExcName>' | {'loaded': 'same' | [[path, before, after]...], 'rt': bool, 'valid': ...}"""
         obj, err = self.present(data)
+        nxt = self.next
         if err is not None:
             return err
         try:
@@ -128,6 +143,8 @@ class Env:
         wf = wf_problems(c)
         if wf:
             out["wf"] = wf
+        if nxt is not None and nxt != "same":
+            out["next"] = nxt
         return out
 
 
@@ -360,6 +377,58 @@ def failure_key(cls, key, data_before, data_after, layout, skips=(False, False),
     return "structural:" + cls + (":" + key if key else ""), False
 
 
+OPTIONAL_KEYS = set(["time_units", "metadata", "metadata_schema", "mutations/time", "edges/metadata",
+                     "edges/metadata_offset", "migrations/metadata", "migrations/metadata_offset",
+                     "individuals/parents", "individuals/parents_offset", "indexes/edge_insertion_order",
+                     "indexes/edge_removal_order", "reference_sequence/data", "reference_sequence/url",
+                     "reference_sequence/metadata", "reference_sequence/metadata_schema"]
+                    + [t + "/metadata_schema" for t in c05.TABLE_ORDER if t != "provenances"])
+
+
+def _kcmp(a, b):
+    n = min(len(a), len(b))
+    if a[:n] != b[:n]:
+        return -1 if a[:n] < b[:n] else 1
+    return (len(a) > len(b)) - (len(a) < len(b))
+
+
+def key_lookup_failures(layout, after, skips):
+    """The file loaded although key bytes were altered.  Independent lookup (binary search as the C
+    library does it, over the keys as they now stand): a required key that cannot be found, or one
+    half of a pair (data/offset column, the two index arrays) that cannot be found while the other
+    can, must have made load fail."""
+    items = layout.p["items"]
+    now = [bytes(after[it["key_start"]:it["key_start"] + it["key_len"]]) for it in items]
+
+    def found(k):
+        lo, hi = 0, len(now)
+        while lo < hi:
+            mid = (lo + hi) // 2
+            c = _kcmp(k, now[mid])
+            if c == 0:
+                return True
+            if c < 0:
+                hi = mid
+            else:
+                lo = mid + 1
+        return False
+    out = []
+    wanted = [it["key"] for it in items]
+    have = {k.decode("latin1"): found(k) for k in wanted}
+    for k, ok in have.items():
+        if unread_under(k, skips):
+            continue
+        if not ok and k not in OPTIONAL_KEYS:
+            out.append(("key-lookup:required-missing:" + k, "required key %s cannot be found any more, yet the file loads" % k))
+        partner = k[:-7] if k.endswith("_offset") else None
+        if k == "indexes/edge_insertion_order":
+            partner = "indexes/edge_removal_order"
+        if partner in have and have[partner] != ok:
+            out.append(("key-lookup:half-pair:" + (partner if k.endswith("_offset") else "indexes"),
+                        "only one of %s / %s can be found, yet the file loads" % (partner, k)))
+    return out
+
+
 IGNORABLE = ("minor-version", "padding-bytes", "reserved-bytes:header", "reserved-bytes:descriptor")
 
 
@@ -389,6 +458,11 @@ def judge_structural(edit_classes, outcome, before, after, layout, skips=(False,
     if not explained:
         out.append(("unexplained-content-change", "altered %s; what loaded differs from the original beyond defaulted optional columns: %s"
                     % (sorted(edit_classes, key=str), outcome["loaded"])))
+    if outcome.get("next"):
+        out.append(("stream-desync", "altered %s: the object loads but the NEXT object on the stream no longer does (%s)"
+                    % (sorted(edit_classes, key=str), outcome["next"])))
+    if all(cls == "key-bytes" or cls in IGNORABLE for cls, _ in edit_classes):
+        out += key_lookup_failures(layout, after, skips)
     if outcome.get("wf"):
         out.append(("loaded-not-well-formed", "what loaded violates the table invariant: %s" % (outcome["wf"],)))
     if outcome.get("rt"):
@@ -427,12 +501,28 @@ def base_cases(rng, n_any, n_valid, tiny_p=0.5):
         yield valid_ts_desc(rng), True
 
 
-def pick_env(rng, valid):
+READ_PATHS = [(False, False), (False, False), (True, False), (False, True), (False, False), (True, True)]
+
+
+def pick_env(rng, valid, k=None):
+    """k: position of the case in its family: the read path and the presentation are cycled so that
+    every seed covers eager and skip paths, single files and both stream positions."""
     api = "ts" if (valid and rng.random() < 0.5) else "tc"
-    r = rng.random()
-    skip_tables, skip_ref = (r < 0.2), (0.15 < r < 0.35)
-    mode = rng.choice(MODES)
+    if k is None:
+        r = rng.random()
+        skip_tables, skip_ref = (r < 0.2), (0.15 < r < 0.35)
+        mode = rng.choice(MODES)
+    else:
+        skip_tables, skip_ref = READ_PATHS[k % len(READ_PATHS)]
+        mode = ["stream1", "path", "file", "stream2"][k % 4]
+        if k % 12 == 8:
+            api = "tc"
     return {"api": api, "skip_tables": skip_tables, "skip_ref": skip_ref, "mode": mode}
+
+
+def stream_term(env, inner):
+    """Coq term of the stream the reader sees for the corrupted object [inner] (base file = f)."""
+    return "(%s ++ f)" % inner if env["mode"] == "stream1" else inner
 
 
 def dump_base(case, tmp):
@@ -477,21 +567,9 @@ class CorruptFamily(Family):
         return d
 
     def shrink(self, case):
-        # re-observing a candidate costs thousands of loads: only a few, coarse candidates
-        if case["env"]["mode"] != "path":
-            c = copy.deepcopy(case)
-            c["env"]["mode"] = "path"
-            yield c
-        d = case["desc"]
-        big = [n for n in c05.TABLE_ORDER if d["tables"][n]["n"] > 0 and not (n == "edges" and d["indexes"] is not None)]
-        if big:
-            c = copy.deepcopy(case)
-            for n in big:
-                t = c["desc"]["tables"][n]
-                while t["n"] > 0:
-                    t = c05.drop_last_row(n, t)
-                c["desc"]["tables"][n] = t
-            yield c
+        # no minimisation: re-observing one candidate costs thousands of loads (+ a Coq run for a
+        # disagreement), and the failing edit is already named in the failure message
+        return []
 
 
 # ---------------------------------------------------------------------------
@@ -613,11 +691,11 @@ class Subst(CorruptFamily):
 
     def generate(self, rng, tier):
         n_any, n_valid = (2, 1) if tier == "quick" else (16, 6)
-        for desc, valid in base_cases(rng, n_any, n_valid, tiny_p=0.7):
+        for k, (desc, valid) in enumerate(base_cases(rng, n_any, n_valid, tiny_p=0.7)):
             vals = [rng.choice([1, 2, 0x80, 0xFF, 0x40, 0x20]), 0x80 if rng.random() < 0.5 else 0xFF, rng.randrange(1, 256)]
             if tier == "quick":
                 vals = vals[:1] + vals[2:]      # two values per position in the quick tier
-            yield {"desc": desc, "env": pick_env(rng, valid), "vals": vals,
+            yield {"desc": desc, "env": pick_env(rng, valid, k + 1), "vals": vals,
                    "stride": 1, "coq_stride": 20 if tier == "quick" else 6}
 
     def edits(self, case, base):
@@ -685,8 +763,8 @@ class Subst(CorruptFamily):
                     (pos * 7 + val) % case.get("coq_stride", 8) == 0:
                 keep.append("(%d, %d, %s)" % (pos, val, vcode(c, e["api"])))
         return ("(let f := %s in forallb (fun e => match e with (p, v, c) => "
-                "verdict_agrees (load_verdict %s %s (subst_byte f p v)) c end) [%s])"
-                % (clist(base), cb(e["skip_tables"]), cb(e["skip_ref"]), "; ".join(keep)))
+                "verdict_agrees (load_verdict %s %s %s) c end) [%s])"
+                % (clist(base), cb(e["skip_tables"]), cb(e["skip_ref"]), stream_term(e, "(subst_byte f p v)"), "; ".join(keep)))
 
 
 # ---------------------------------------------------------------------------
@@ -696,8 +774,12 @@ class Multi(CorruptFamily):
 
     def generate(self, rng, tier):
         n_any, n_valid = (6, 2) if tier == "quick" else (60, 20)
-        for desc, valid in base_cases(rng, n_any, n_valid, tiny_p=0.6):
-            yield {"desc": desc, "env": pick_env(rng, valid), "seed": rng.randrange(2 ** 30),
+        for k, (desc, valid) in enumerate(base_cases(rng, n_any, n_valid, tiny_p=0.6)):
+            if k % 2 == 0 and desc["indexes"] is None:      # every other base file carries an index
+                ne = desc["tables"]["edges"]["n"]
+                z = "".join(struct.pack("<i", x).hex() for x in range(ne))
+                desc["indexes"] = [z, z]
+            yield {"desc": desc, "env": pick_env(rng, valid, k), "seed": rng.randrange(2 ** 30),
                    "n_random": 60 if tier == "quick" else 400}
 
     def edits(self, case, base):
@@ -752,6 +834,11 @@ class Multi(CorruptFamily):
                     ed.append(field(64 + 64 * j + 32, 8, it["array_len"] + 2 ** 62))
             if ed:
                 eds.append(ed)
+        # last byte of every key +1 / -1 (usually keeps the keys sorted: only that key disappears)
+        for it in items:
+            p_last = it["key_start"] + it["key_len"] - 1
+            eds.append([(p_last, bytes([(base[p_last] + 1) % 256]))])
+            eds.append([(p_last, bytes([(base[p_last] - 1) % 256]))])
         # swap two adjacent descriptors (keys and arrays then no longer match / order broken)
         for _ in range(6):
             j = rng.randrange(n - 1)
@@ -850,10 +937,10 @@ class Multi(CorruptFamily):
             if c in ("hang", "adapter"):
                 continue
             if ed[0][0] == "replace":
-                terms.append("verdict_agrees (load_verdict %s %s %s) %s" % (cb(e["skip_tables"]), cb(e["skip_ref"]), clist(ed[0][1]), vcode(c, e["api"])))
+                terms.append("verdict_agrees (load_verdict %s %s %s) %s" % (cb(e["skip_tables"]), cb(e["skip_ref"]), stream_term(e, clist(ed[0][1])), vcode(c, e["api"])))
             else:
                 subs = "[" + "; ".join("(%d, %s)" % (p, clist(bs)) for p, bs in ed) + "]"
-                terms.append("verdict_agrees (load_verdict %s %s (subst_many f %s)) %s" % (cb(e["skip_tables"]), cb(e["skip_ref"]), subs, vcode(c, e["api"])))
+                terms.append("verdict_agrees (load_verdict %s %s %s) %s" % (cb(e["skip_tables"]), cb(e["skip_ref"]), stream_term(e, "(subst_many f %s)" % subs), vcode(c, e["api"])))
         return "(let f := %s in forallb (fun b : bool => b) [%s])" % (clist(base), "; ".join(terms))
 
 
@@ -872,8 +959,8 @@ class Data(CorruptFamily):
 
     def generate(self, rng, tier):
         n_any, n_valid = (8, 8) if tier == "quick" else (100, 100)
-        for desc, valid in base_cases(rng, n_any, n_valid, tiny_p=0.2):
-            yield {"desc": desc, "env": pick_env(rng, valid), "seed": rng.randrange(2 ** 30),
+        for k, (desc, valid) in enumerate(base_cases(rng, n_any, n_valid, tiny_p=0.2)):
+            yield {"desc": desc, "env": pick_env(rng, valid, k + 2), "seed": rng.randrange(2 ** 30),
                    "n": 250 if tier == "quick" else 600}
 
     def edits(self, case, base):
@@ -936,7 +1023,7 @@ class Data(CorruptFamily):
             for c in codes:
                 hist[c] = hist.get(c, 0) + 1
             prob = [[k, o] for k, o in enumerate(res)
-                    if not isinstance(o, str) and (o.get("rt") or o.get("valid") or o.get("wf") or "loaded" not in o)]
+                    if not isinstance(o, str) and (o.get("rt") or o.get("valid") or o.get("wf") or o.get("next") or "loaded" not in o)]
             return {"size": len(base), "n": len(eds), "codes": rle(codes), "hist": hist, "problems": prob,
                     "file": base.hex()}
 
@@ -959,6 +1046,8 @@ class Data(CorruptFamily):
             elif "adapter_exception" in o:
                 out.append(("adapter", o["adapter_exception"]))
             else:
+                if o.get("next"):
+                    out.append(("data:stream-desync", "edit %r loads but the next object on the stream no longer does: %s" % (eds[k], o["next"])))
                 if o.get("wf"):
                     out.append(("data:not-well-formed", "edit %r loaded an object violating the table invariant: %s" % (eds[k], o["wf"])))
                 if o.get("rt"):
@@ -987,7 +1076,7 @@ class Data(CorruptFamily):
             if c in ("hang", "adapter") or (k % 3 and c != "crash" and k >= 60):
                 continue
             subs = "[" + "; ".join("(%d, %s)" % (p, clist(bs)) for p, bs in ed) + "]"
-            terms.append("verdict_agrees (load_verdict %s %s (subst_many f %s)) %s" % (cb(e["skip_tables"]), cb(e["skip_ref"]), subs, vcode(c, e["api"])))
+            terms.append("verdict_agrees (load_verdict %s %s %s) %s" % (cb(e["skip_tables"]), cb(e["skip_ref"]), stream_term(e, "(subst_many f %s)" % subs), vcode(c, e["api"])))
         return "(let f := %s in forallb (fun b : bool => b) [%s])" % (clist(base), "; ".join(terms))
 
 
